@@ -11,7 +11,6 @@ package harness
 import (
 	"context"
 	"fmt"
-	"io"
 	"log"
 	"net"
 	"os"
@@ -94,7 +93,7 @@ func TestC15Hook(t *testing.T) {
 	os.WriteFile(script, []byte("#!/bin/sh\nf="+w.dir+"/call-$(date +%s%N)-$$\nenv > $f.tmp\necho END >> $f.tmp\nmv $f.tmp $f\n"), 0o755)
 	ctx, cancel := context.WithCancel(context.Background())
 	defer cancel()
-	mc := client.New(log.New(io.Discard, "", 0), w.iface, script, true)
+	mc := client.New(log.New(logSink{}, "", 0), w.iface, script, true)
 	done := make(chan bool)
 	go func() { defer close(done); defer func() { recover() }(); mc.Run(ctx) }()
 	// wait until the n-th configuration of the interface has happened and the hook has had time to run
@@ -214,7 +213,7 @@ func TestC19Hook(t *testing.T) {
 			script := filepath.Join(w.dir, "hook.sh")
 			os.WriteFile(script, []byte("#!/bin/sh\necho hook says no\necho x >> "+w.dir+"/ran\nexit 1\n"), 0o755)
 			ctx, cancel := context.WithCancel(context.Background())
-			mc := client.New(log.New(io.Discard, "", 0), w.iface, script, true)
+			mc := client.New(log.New(logSink{}, "", 0), w.iface, script, true)
 			done := make(chan bool)
 			go func() { defer close(done); defer func() { recover() }(); mc.Run(ctx) }()
 			for end := time.Now().Add(15 * time.Second); time.Now().Before(end) && setifaceCount(w.name) == 0; time.Sleep(20 * time.Millisecond) {
@@ -251,7 +250,7 @@ func TestC19Hook(t *testing.T) {
 		body := "#!/bin/sh\n" + trap + "if [ -n \"$PSA_DHCPC_IPV4_ADDRESS\" ]; then k=configured; else k=purge; fi\nif [ $k = " + at + " ]; then touch " + w.dir + "/started; exec sleep 25; fi\n"
 		os.WriteFile(script, []byte(body), 0o755)
 		ctx, cancel := context.WithCancel(context.Background())
-		mc := client.New(log.New(io.Discard, "", 0), w.iface, script, true)
+		mc := client.New(log.New(logSink{}, "", 0), w.iface, script, true)
 		done := make(chan bool)
 		go func() { defer close(done); defer func() { recover() }(); mc.Run(ctx) }()
 		started := false
